@@ -107,7 +107,9 @@ API_SURFACE = [
  {"api": "comparator: std::less / key-only less | std::greater / key-only greater on descending inputs | stateful non-default-constructible counting comparator", "called": True, "by": "P0-P3,P6,P7 | P4 | P5"},
  {"api": "element type: int (4 B) | 16 B record = 2*sizeof(size_t) (largest copy-based loser tree) | 24 B record (smallest pointer-based tree) | 40 B record", "called": True, "by": "I | T | M (P1) | B"},
  {"api": "element type whose key owns heap memory and whose destructor poisons it (24 B, pointer-based trees): exposes addresses of temporaries / by-value parameters kept by a tree (e.g. the sentinel of LoserTreePointerUnguarded)", "called": True, "by": "S (P8): all entry points, algorithms, k, stable and unstable, sentinels and none"},
+ {"api": "operator< of every record element type is defined and deliberately UNRELATED to the comparators handed to the merges (orders by position only); int runs with std::greater on descending inputs: code that falls back to operator< yields a concrete wrong result instead of a compile error", "called": True, "by": "T, M, B, S in every profile; I in P4"},
  # regimes
+ {"api": "regime: total input size around 2^31, 2^32, 2^32+7, 2.8e9 elements (sparse mapping), k in 2,3,4,5,8, every algorithm, stable/unstable, sentinel and plain entry points, 1-byte and 24-byte elements", "called": True, "by": "harness/C05/huge_harness.cpp"},
  {"api": "regime: every sequence in its own exactly sized heap block (ASan redzones) | all sequences adjacent sub-ranges of ONE buffer (overruns read valid neighbours; caught by the checking iterators / wrong results)", "called": True, "by": "P0,P1,P6 | P4,P5,P7"},
  {"api": "regime: k = 0,1,2 with every algorithm constant; len = 0; all sequences empty; one very long sequence among short/empty ones; len smaller than one sequence; empty first sequence", "called": True, "by": "generator shapes 0-7, every len 0..total for small inputs"},
 ]
@@ -362,12 +364,79 @@ def run_cases(cases, tag):
                              {"correspondence": "harness/C05/mwm_harness.cpp vs extracted model (C09 loser trees)", "case": c, "impl": a, "model": b}))
     return impl
 
+
+# ---------------------------------------------------------------- huge totals (sparse mapping; see harness/C05/huge_harness.cpp)
+HUGE_TOTALS = [2 ** 31, 2 ** 32, 2 ** 32 + 7, 2800000000]
+def gen_huge(rng):
+    """(harness line, equivalent model case): the merge of `len` elements only depends on the first `len` elements of every
+    sequence, so the model (and the property verdict) run on the sequences truncated to `len` elements."""
+    out = []
+    combos = [(T, k, a, st) for T in HUGE_TOTALS for k in (2, 3, 4, 5, 8) for a in range(4) for st in (0, 1)]
+    variants = [(c, se, ln) for c in "bw" for se in (0, 1) for ln in (0, 1, None)] if ck.thorough() else [None]
+    for (T, k, a, st) in combos:
+        for var in variants:
+            if var is None: cls, se, ln = "bw"[rng.below(2)], rng.below(2), (0, 1, 7, 50, None)[rng.below(5)]
+            else: cls, se, ln = var
+            if ln is None: ln = rng.range(2, 300)
+            if rng.below(2) == 0:
+                sizes = [T // k] * k; sizes[-1] += T - sum(sizes)
+            else:
+                small = [rng.range(1, 2000) for _ in range(k - 1)]; sizes = small + [T - sum(small)]
+                j = rng.below(k); sizes[j], sizes[-1] = sizes[-1], sizes[j]
+            if k >= 3 and rng.below(6) == 0:
+                j = rng.below(k); sizes[(j + 1) % k] += sizes[j]; sizes[j] = 0           # an empty sequence somewhere
+            pre = [sorted(-rng.range(1, 9) for _ in range(rng.below(5))) if n else [] for n in sizes]
+            hline = " ".join([cls, str(st), str(se), str(a), str(ln), str(k)] +
+                             ["%d:%s" % (n, ",".join(map(str, p_)) if p_ else "_") for n, p_ in zip(sizes, pre)])
+            trunc = [(p_ + [0] * ln)[:min(n, ln)] for n, p_ in zip(sizes, pre)]
+            mcase = fmt_case("I", st, se, a, ln, trunc, [100] * k) + " v=0.0"
+            out.append((hline, mcase))
+    return out
+
+def run_huge():
+    global found
+    pairs = gen_huge(rng)
+    hf = os.path.join(ck.scratch, "huge_cases.txt"); mf = os.path.join(ck.scratch, "huge_model.txt")
+    open(hf, "w").write("\n".join(h for h, _ in pairs) + "\n"); open(mf, "w").write("\n".join(m for _, m in pairs) + "\n")
+    rc1, out1 = verif.sh([exes[4], hf], timeout=1200)
+    rc2, out2 = verif.sh([drv, mf], timeout=3000)
+    impl = out1.splitlines(); model = out2.splitlines()
+    counters["evaluations"] += len(pairs); counters["huge_total_cases"] = len(pairs)
+    if rc1 != 0:
+        found = True
+        nok = len([l for l in impl if l.startswith("out=")])
+        ck.violation("multiway merge entry point crashes or does not terminate on inputs with a total size around 2^31..2^32 elements",
+                     {"case": pairs[min(nok, len(pairs) - 1)][0], "harness": "harness/C05/huge_harness.cpp", "log_tail": out1[-2000:]})
+        return
+    for idx, (h, m) in enumerate(pairs):
+        a = impl[idx].strip() if idx < len(impl) else "<missing>"
+        b = model[idx].strip() if idx < len(model) else "<missing>"
+        if a.startswith("MMAP-FAILED"):
+            counters["huge_mmap_failed"] = counters.get("huge_mmap_failed", 0) + 1; continue
+        v = property_verdict(m, a)
+        counters["verdicts"] += 1
+        if v is not None:
+            found = True
+            if ck.violations < 3:
+                ck.violation("implementation violates the property on inputs with a huge total size: %s; result %s" % (v, a[:160]),
+                             {"case": h, "harness": "harness/C05/huge_harness.cpp (sparse mapping: <n_i>:<leading keys>, rest 0)",
+                              "equivalent_model_case": m[:400], "impl": a[:400], "model": b[:400]})
+            continue
+        if "MODEL" in b or b == "<missing>" or canon(m, a) != canon(m, b):
+            if len(soft) < 3:
+                soft.append(("huge totals: implementation differs from the model run on the first len elements of every sequence: impl=%s model=%s" % (a[:120], b[:120]),
+                             {"correspondence": "harness/C05/huge_harness.cpp vs extracted model", "case": h, "impl": a[:400], "model": b[:400]}))
+    if pairs and len(samples) < 6:
+        samples.append({"huge_case": pairs[0][0], "result": impl[0][:200] if impl else None})
+
 import concurrent.futures
 def _build(part):
     if part == 0: return ck.build_cpp("c05_harness", ["harness/C05/mwm_harness.cpp"])
+    if part == 4: return ck.build_cpp("c05_huge", ["harness/C05/huge_harness.cpp"])
     return ck.build_cpp("c05_api%d" % part, ["harness/C05/api_harness.cpp"], extra=["-DAPI_PART=%d" % part])
 with concurrent.futures.ThreadPoolExecutor(max_workers=4) as pool:
-    built = list(pool.map(_build, [0, 1, 2, 3]))
+    built = list(pool.map(_build, [4, 0, 1, 2, 3]))
+built = built[1:] + built[:1]
 exes = {part: b[0] for part, b in enumerate(built)}
 exe = None if any(b[0] is None for b in built) else exes[0]
 log = "\n".join(b[1][-1500:] for b in built if b[0] is None)
@@ -393,7 +462,7 @@ if drv is None:
     drv, dlog2 = fallback_driver()
     dlog = dlog + "\n--- fallback ---\n" + dlog2
 if exe is None:
-    ck.violation("correspondence harness does not compile against /repo", {"correspondence": "harness/C05/mwm_harness.cpp, harness/C05/api_harness.cpp", "log": log[-3000:]}, no_input=True)
+    ck.violation("correspondence harness does not compile against /repo", {"correspondence": "harness/C05/mwm_harness.cpp, api_harness.cpp, huge_harness.cpp", "log": log[-3000:]}, no_input=True)
 elif drv is None:
     ck.violation("extracted model/driver does not build", {"correspondence": "ocaml/C05_driver.ml", "log": dlog[-2000:]}, no_input=True)
 else:
@@ -401,6 +470,8 @@ else:
     for i in sorted(set((0, ncorpus + 7, len(cases) // 2, len(cases) - 1))):
         if 0 <= i < len(impl) and i < len(cases):
             samples.append({"case": cases[i], "result": impl[i]})
+    if not ck.replay:
+        run_huge()
     if ck.thorough() and not ck.replay and not found:
         run_cases(exhaustive_ties(), "ties_all")
         ck.coverage["exhaustive_tie_family"] = "all k=3 inputs over the 10 sorted words of length <= 2 on 3 keys (every length, guarded/combined/sentinel), all k=4 inputs over the 7 duplicate-free words (3 longest lengths, guarded/combined)"
@@ -429,6 +500,7 @@ ck.finish({
     "samples": samples,
     "input_distribution": hist,
     "api_surface": API_SURFACE,
+    "huge_totals": "family of %d cases with total input sizes 2^31, 2^32, 2^32+7 and 2.8e9 elements (k in 2,3,4,5,8; every algorithm; stable and unstable; sentinel and plain entry points; 1-byte elements = copy-based trees and 24-byte records = pointer-based trees) carved from one sparse MAP_NORESERVE mapping; since a merge of len elements depends only on the first len elements of each sequence, these cases are judged against the extracted model and the property verdict run on the sequences truncated to len elements (the theorems themselves have no size bound other than k <= 2^30)" % counters.get("huge_total_cases", 0),
 }, assumptions=[
     "loser trees enter the general theorems through an interface (winner = live source with minimal head, stable: smallest index among equivalent); the interface is instantiated with C09's model of loser_tree.hpp (guarded classes: every input; unguarded classes: under C09's key precondition) and with a reference tournament; the correspondence run executes the C09-backed model (copy classes for I/T, pointer classes for B) and cross-checks it with the reference tournament",
     "std::lower_bound / std::upper_bound / std::copy modelled by their specification",
